@@ -7,6 +7,10 @@ def H(name, tier="quick", functions=(), domain="", bound="", assume=(), solver="
 
 TABLE = {}
 PROPERTY_META = {}
+WORDS = "arbitrary 32-bit words in every slot"
+CARDBLANK = "{52 cards, blank} in every slot, any repetition, any order"
+EVAL = ["Five::hand_rank_value_and_hand", "or_rank_bits", "is_flush", "Five::unique", "Five::not_unique", "multiply_primes",
+        "Five::find_in_products", "lookups::{FLUSHES,UNIQUE_5,PRODUCTS,VALUES}"]
 
 COMMON_ASSUME = [
     "Kani models the dev profile with overflow checks on; every rustc overflow/bounds assertion is a CBMC property, "
@@ -99,7 +103,6 @@ PROPERTY_META["C20"] = {
     "assumptions": COMMON_ASSUME,
 }
 
-WORDS = "arbitrary 32-bit words in every slot"
 
 # ---------------------------------------------------------------- C08
 TABLE["C08"] = [
@@ -243,5 +246,91 @@ TABLE["C13"] = [
 PROPERTY_META["C13"] = {
     "claim": "each predicate iff its definition on all hands/orders; category from ranking agrees (table path any order; product path sorted order in thorough); free functions == methods on arbitrary words",
     "outside": "category agreement for paired hands in unsorted order is covered through C01+C06 (value = ordinal, name = category of ordinal)",
+    "assumptions": COMMON_ASSUME,
+}
+
+# ---------------------------------------------------------------- wiring (shared by C01, C04, C05, C06)
+def WIRING(sizes=("five", "six", "seven"), validated=("five", "six", "seven")):
+    out = []
+    for n in sizes:
+        T = n.capitalize()
+        out.append(H(f"c04_defaults_{n}", functions=[f"HandRanker for {T} (trait defaults): hand_rank_value, hand_rank, hand_rank_validated"] + (["evaluate::five_cards"] if n == "five" else []),
+                     domain=WORDS, bound="whole input type; unwind 9",
+                     assume=[f"<{T} as HandRanker>::hand_rank_value_and_hand and ::hand_rank_value_validated replaced by arbitrary functions: the defaults are proved to be wired to the primitives whatever they compute"],
+                     draws="a:u32*N, fv:u16, fvv:u16, fh:u32*5"))
+    for n in validated:
+        T = n.capitalize()
+        out.append(H(f"c04_validated_{n}", functions=[f"<{T} as HandRanker>::hand_rank_value_validated", f"<{T} as HandValidator>::is_valid"] + (["evaluate::five_cards"] if n == "five" else []),
+                     domain=WORDS, bound="whole input type; unwind 9", timeout=1800,
+                     assume=[f"<{T} as HandRanker>::hand_rank_value_and_hand replaced by an arbitrary function with a call counter"],
+                     draws="a:u32*N, fv:u16, fh:u32*5"))
+    return out
+
+# ---------------------------------------------------------------- C01
+TABLE["C01"] = [
+    H("c01_flush_any_order", solver="kissat", timeout=1800, functions=EVAL, domain="five distinct cards of one suit, any slot order (5,148 hands x 120 orders)", bound="whole domain; unwind 14", draws="(r,s)*5"),
+    H("c01_distinct_any_order", solver="kissat", timeout=1800, functions=EVAL, domain="five distinct cards, five distinct ranks, not one suit, any slot order (1,312,272 hands x 120)", bound="whole domain; unwind 14", draws="(r,s)*5"),
+    H("c01_paired_sorted", solver="kissat", timeout=1800, functions=EVAL, domain="five distinct cards with a repeated rank, slots in descending card order (1,281,540 hands, 1 order each)", bound="whole domain; unwind 14 (13-step binary search + 1)", draws="(r,s)*5"),
+    H("c01_folds_swap", solver="kissat", timeout=1800, functions=["Five::and_bits", "or_bits", "or_rank_bits", "multiply_primes", "is_flush"], domain="five distinct cards, any order, any adjacent slot pair swapped", bound="loop-free; whole domain", draws="(r,s)*5, k:u8"),
+    H("c01_every_value_produced", solver="kissat", timeout=1800, functions=EVAL, domain="k: every ordinal 1..=7462 (symbolic index into the compile-time witness table S3)", bound="whole domain; unwind 14", draws="k:u16"),
+    H("c01_witness_valid", functions=["<Five as HandValidator>::is_valid"], domain="k: every ordinal 1..=7462", bound="whole domain; unwind 9", draws="k:u16"),
+] + [
+    H(f"c01_paired_any_order_r{j:02d}", tier=f"seeded:p4:{j}:13", solver="kissat", timeout=2700, functions=EVAL,
+      domain=f"five distinct cards with a repeated rank, ANY slot order, partition: rank of slot 0 is {j}", bound="whole partition; unwind 14", draws="(r,s)*5")
+    for j in range(13)
+] + WIRING(sizes=("five",), validated=("five",))
+PROPERTY_META["C01"] = {
+    "claim": "real evaluator value == S2 ordinal for every flush and every five-distinct-rank hand in every slot order, for every paired hand in descending order, "
+             "and (quick: one of 13 partitions chosen by VERIF_SEED; thorough: all 13) for every paired hand in every slot order; folds invariant under adjacent swaps; "
+             "every ordinal 1..=7462 produced by a witness hand; other entry points wired to the primitive (c04_defaults_five / c04_validated_five)",
+    "outside": "quick tier: any-order coverage of paired hands is one partition in 13 per run (the sorted-order harness plus the fold-swap lemma cover the rest indirectly)",
+    "assumptions": COMMON_ASSUME + ["S2 ordinal validated against a naive rules comparator natively in setup (oracle self-test, not a deciding step)",
+                                    "'same value iff tie, lower iff beats' follows because S2 is the order isomorphism of the strength preorder onto 1..=7462"],
+}
+
+# ---------------------------------------------------------------- C04
+TABLE["C04"] = [
+    H(f"c04_valid_{n}",
+      functions=[f"<{n.capitalize()} as HandValidator>::{{is_valid, is_corrupt, contain_blank, are_unique, iter}}", "CardNumber::filter"]
+      + (["sort (core sort_unstable + reverse)"] if n in ("six", "seven") else []),
+      domain=WORDS, bound="whole input type (2^(32N) arrays); unwind 9", timeout=1800, draws="a:u32*N",
+      assume=(["are_unique is asserted in c04_unique_* (Six/Seven use 0xFFFFFFFF as a scan sentinel; validity is unaffected)"] if n in ("six", "seven") else []))
+    for n in ("two", "three", "four", "five", "six", "seven")
+] + [
+    H(f"c04_unique_{n}", functions=[f"<{n.capitalize()} as HandValidator>::are_unique", "sort"], domain=WORDS + ", no slot 0xFFFFFFFF",
+      bound="whole domain; unwind 9", timeout=1800, draws="a:u32*N") for n in ("six", "seven")
+] + WIRING()
+PROPERTY_META["C04"] = {
+    "claim": "is_valid iff all slots are S1 cards and pairwise distinct, for ARBITRARY words in every slot, all six sizes; validated ranking (and evaluate::five_cards) returns 0 without reaching the evaluator "
+             "when not valid and the unvalidated value otherwise, for any evaluator primitive; never panics on the validated path",
+    "outside": "panic-freedom of the evaluator primitive itself on valid hands is C01/C05",
+    "assumptions": COMMON_ASSUME,
+}
+
+# ---------------------------------------------------------------- C05
+FINDSTUB = ["Five::find_in_products replaced by its contract 'returns some index < 4888' (decided on the real function by c05_find_in_products)"]
+TABLE["C05"] = [
+    H("c05_find_in_products", solver="kissat", functions=["Five::find_in_products", "lookups::PRODUCTS"], domain="key: every usize",
+      bound="unwind 14 (13-step binary search over 4888 entries, unwinding assertion on)", draws="key:usize"),
+    H("c05_blank_five", solver="kissat", timeout=1800, functions=EVAL + ["HandRank::from"],
+      domain="five slots over " + CARDBLANK + ", at least one blank (53^5 - 52^5 ordered arrays)", bound="whole domain; unwind 14", draws="(r,s)*5, r=13 is blank"),
+    H("c05_five_total", solver="kissat", timeout=1800, functions=EVAL, domain="five slots over " + CARDBLANK + " (all 53^5 ordered arrays)",
+      bound="whole domain; unwind 14", draws="(r,s)*5"),
+    H("c05_six_logic_total", functions=["Six::hand_rank_value_and_hand", "five_from_permutation", "Five::sort", "HandRanker::hand_rank_value (default)"], domain=WORDS,
+      bound="whole input type; unwind 9", assume=["<Five as HandRanker>::hand_rank_value_and_hand replaced by an arbitrary total function (its own panic freedom on card-or-blank fives is c05_five_total)"],
+      draws="a:u32*6 (natively (r,s)*7)"),
+    H("c05_seven_logic_total", functions=["Seven::hand_rank_value_and_hand", "five_from_permutation", "Five::sort", "HandRanker::hand_rank_value (default)"], domain=WORDS,
+      bound="whole input type; unwind 23 (21 candidate rows)", assume=["<Five as HandRanker>::hand_rank_value_and_hand replaced by an arbitrary total function"],
+      draws="a:u32*7 (natively (r,s)*7)"),
+    H("c05_blank_five_entry_points", tier="thorough", solver="kissat", timeout=1800, functions=EVAL + ["hand_rank_value", "hand_rank", "hand_rank_value_validated", "hand_rank_validated", "evaluate::five_cards", "Five::is_valid"],
+      domain="four distinct real cards and one blank in any of the five slots", bound="whole sub-domain; unwind 14", draws="(r,s)*4, k:u8"),
+    H("c05_six_total", tier="thorough", solver="kissat", timeout=1800, functions=["Six::hand_rank_value_and_hand", "five_from_permutation", "Five::sort"] + EVAL[:6] + EVAL[7:],
+      domain="six slots over " + CARDBLANK, bound="whole domain; unwind 14", assume=FINDSTUB, draws="(r,s)*7 (first six used)"),
+    H("c05_seven_total", tier="thorough", solver="kissat", timeout=3000, functions=["Seven::hand_rank_value_and_hand", "five_from_permutation", "Five::sort"] + EVAL[:6] + EVAL[7:],
+      domain="seven slots over " + CARDBLANK, bound="whole domain; unwind 23", assume=FINDSTUB, draws="(r,s)*7"),
+] + WIRING(validated=("five", "six")) + [dict(x, tier="thorough") for x in WIRING(sizes=(), validated=("seven",))]
+PROPERTY_META["C05"] = {
+    "claim": "no panic / overflow / out-of-bounds index in any ranking entry point of Five, Six, Seven on card-or-blank hands (ordered arrays, all of them) nor in find_in_products for any usize; a five with a blank has value 0 / Invalid through every entry point",
+    "outside": "words that are neither a card nor blank (C04 covers the validated path for those); 'no hang' is covered by the passing unwinding assertions (all loops bounded)",
     "assumptions": COMMON_ASSUME,
 }
